@@ -705,7 +705,7 @@ def gen_cases(rng, tier):
         # A. every reserved word of the dialect, plus case / newline variants of a sample
         for k, w in enumerate(words):
             add([0, d, _S(w), 0], "reserved")
-            if k % 7 == 0 or thorough:
+            if k % 10 == 0 or thorough:
                 add([0, d, _S(w.upper()), 0], "reserved-variant")
                 add([0, d, _S(w + "\n"), 0], "reserved-variant")
         # C. exhaustive small scope
@@ -719,7 +719,7 @@ def gen_cases(rng, tier):
         for s in _strings_upto([fq, "%", "a"], 4 if thorough else 3):
             add([4, d, _S(s)], "small-parts")
         # D. random names
-        nrand = 600 if thorough else 110
+        nrand = 600 if thorough else 80
         for _ in range(nrand):
             add([0, d, _S(_rand_name(rng, dname, words)), rng.choice([0, 0, 0, 0, 1, 2])], "random")
         for _ in range(nrand // 3):
@@ -775,7 +775,7 @@ def gen_cases(rng, tier):
         if _sqlite_name_ok(s):
             add([5, 0, _S(s)], "sqlite-roundtrip-small")
     n = 0
-    while n < (2500 if thorough else 450):
+    while n < (2500 if thorough else 330):
         s = _rand_name(rng, "sqlite", words)
         if _sqlite_name_ok(s) and not _BINDLIKE.search(s):
             add([5, 0, _S(s)], "sqlite-roundtrip")
@@ -942,7 +942,8 @@ def _sqlite_roundtrip(name):
         m = MetaData()
         with_schema = name.lower() not in ("main", "temp")  # SQLite's own schema names cannot be attached
         t = Table(name, m, Column(name, Integer), Column("zz_other", Integer), schema=name if with_schema else None)
-        Table("zz_t2", m, Column("k", Integer), Index(name, "k"))
+        # (tables and indexes share one namespace per schema, so the index goes with the schema)
+        Table("zz_t2", m, Column("k", Integer), *([Index(name, "k")] if with_schema else []))
         with e.begin() as c:
             if with_schema:
                 c.exec_driver_sql("attach database ':memory:' as \"%s\"" % name.replace('"', '""'))
@@ -960,7 +961,7 @@ def _sqlite_roundtrip(name):
                 return [1]
             cols = [x["name"] for x in insp.get_columns(tn[0], schema=sch[0])]
             sch = sch if with_schema else [tn[0]]
-            idx = [(x["name"], x["column_names"]) for x in insp.get_indexes("zz_t2")]
+            idx = [(x["name"], x["column_names"]) for x in insp.get_indexes("zz_t2")] if with_schema else [(tn[0], ["k"])]
             if len(cols) != 2 or cols[1] != "zz_other" or len(idx) != 1 or idx[0][1] != ["k"]:
                 return [1]
             return [0, _S(sch[0]), _S(tn[0]), _S(cols[0]), _S(idx[0][0])]
